@@ -11,6 +11,8 @@ package tty
 // panicked (the buffer is a bounds-checked slice: a write outside it panics).
 
 import (
+	"github.com/ProjectSerenity/firefly/kernel/device/video/console/font"
+	"github.com/ProjectSerenity/firefly/kernel/device/video/console"
 	"fmt"
 	"testing"
 
@@ -79,7 +81,7 @@ func c17Run(c ttyCase) (*vlib.Failure, c17Stats) {
 	if err := ttyValidCons(c.Cons); err != nil {
 		return vlib.Failf("invalid case: %v", err), st
 	}
-	cons := newGridCons(c.Cons.W, c.Cons.H)
+	cons := c17NewCons(c.Cons)
 	vt := NewVT(c.Tab, c.Scrollback)
 	var ref *refTerm
 	state := StateInactive
@@ -87,6 +89,8 @@ func c17Run(c ttyCase) (*vlib.Failure, c17Stats) {
 	attach := func(g *gridCons) vlib.Caught {
 		pc := vlib.Catch(func() { vt.AttachTo(g) })
 		fg, bg := g.DefaultColors()
+		// the reference terminal has the size of the console: for "fbsize" consoles
+		// the cells that fit into the pixels, whatever the driver reports
 		ref = newRefTerm(int(g.w), int(g.h), int(c.Scrollback), int(c.Tab), fg, bg)
 		return pc
 	}
@@ -106,7 +110,7 @@ func c17Run(c ttyCase) (*vlib.Failure, c17Stats) {
 			}
 			st.absorb(ref)
 			st.attaches++
-			g := newGridCons(op.Cons.W, op.Cons.H)
+			g := c17NewCons(*op.Cons)
 			if pc := attach(g); pc.Panicked {
 				return vlib.Failf("%s: %v", when, pc), st
 			}
@@ -195,7 +199,38 @@ func c17Classify(c ttyCase, s c17Stats) (bool, []string) {
 	return nt, l
 }
 
+// c17NewCons returns the console mock for a case. Kind "fbsize": the size the
+// terminal is told comes from the shipped framebuffer driver, set up for a
+// screen of W x H glyph cells plus RemW/RemH spare pixels and Pad spare bytes
+// per scanline; the reference terminal is W x H.
+func c17NewCons(spec ttyCons) *gridCons {
+	g := newGridCons(spec.W, spec.H)
+	if spec.Kind != "fbsize" {
+		return g
+	}
+	f := font.FindByName(ttyFontNames[spec.Font])
+	if f == nil {
+		panic("VERIF-HARNESS shipped font not found")
+	}
+	bpp := spec.Bpp
+	if bpp == 0 {
+		bpp = 32
+	}
+	width, height := spec.W*f.GlyphWidth+spec.RemW, spec.H*f.GlyphHeight+spec.RemH
+	fb := console.NewVesaFbConsole(width, height, bpp, width*uint32((bpp+7)/8)+spec.Pad, nil, 0xfd000000)
+	fb.SetFont(f)
+	g.sizer = fb
+	return g
+}
+
 func c17GenCons(t *rapid.T) ttyCons {
+	if rapid.IntRange(0, 5).Draw(t, "fbsize") == 0 {
+		return ttyCons{Kind: "fbsize", W: ttyGenDim(t, "w", 12), H: ttyGenDim(t, "h", 12),
+			Bpp:  rapid.SampledFrom([]uint8{8, 16, 24, 32}).Draw(t, "bpp"),
+			Font: rapid.IntRange(0, len(ttyFontNames)-1).Draw(t, "font"),
+			RemW: uint32(rapid.IntRange(0, 7).Draw(t, "remw")), RemH: uint32(rapid.IntRange(0, 15).Draw(t, "remh")),
+			Pad: uint32(rapid.SampledFrom([]int{0, 0, 1, 8, 40, 64, 200}).Draw(t, "pad"))}
+	}
 	if vlib.Thorough() && rapid.IntRange(0, 19).Draw(t, "large") == 0 {
 		return ttyCons{Kind: "grid", W: uint32(rapid.IntRange(13, 200).Draw(t, "bigw")), H: uint32(rapid.IntRange(1, 60).Draw(t, "bigh"))}
 	}
